@@ -457,6 +457,22 @@ func native(outPath string) {
 		if res, err := exec1(e, "toRuneSlice(s)"); err != nil || !reflect.DeepEqual(res, []rune(s)) {
 			add("toRuneSlice", "toRuneSlice", []rune(s), fmt.Sprint(res, err))
 		}
+		// Go's []byte(s) / []rune(s) are fresh copies: storing into the result leaves the string (and another conversion of it) as it was
+		if len(s) > 0 {
+			hs := string(append([]byte(nil), s...)) // (on the heap: a write through a wrongly shared slice must show, not fault)
+			e2 := newEnv()
+			e2.Define("s", hs)
+			for _, fn := range []string{"toByteSlice", "toRuneSlice"} {
+				res, err := exec1(e2, "b = "+fn+"(s)\nb[0] = 120\nc = "+fn+"(s)\nb[0] = 121\n[s, c, len(b)]")
+				want := []interface{}{s, []byte(s), int64(len(s))}
+				if fn == "toRuneSlice" {
+					want[1], want[2] = []rune(s), int64(len([]rune(s)))
+				}
+				if err != nil || !reflect.DeepEqual(res, want) || hs != s {
+					add(fn+"-copy", fn+" must return a copy: a store into its result changed the string", want, fmt.Sprint(res, err, " host string now ", hs))
+				}
+			}
+		}
 		wr := rune(0)
 		if len(s) > 0 {
 			wr = []rune(s)[0]
